@@ -364,7 +364,7 @@ func (r *Run) Finish() int {
 		"seed":        r.Seed,
 		"level":       r.Level,
 		"coverage":    cov,
-		"assumptions": r.assume,
+		"assumptions": append([]string{"the harness module /verif/mc is built against /repo's current working tree (module replace) with -tags verif"}, r.assume...),
 		"wall_s":      wall,
 		"violations":  len(r.viol),
 	}
